@@ -109,6 +109,7 @@ func (s *session) startReader() {
 }
 
 func (s *session) closeNow() {
+	s.w.appClosing.Store(true)
 	_ = s.tr.Close()
 	s.rec.setSituation("closed")
 	s.closed.Store(true)
@@ -148,6 +149,7 @@ func (s *session) finish(desc any, sig string, recoverable bool) vrun.Result {
 	sn := s.w.snap()
 	fs := judge(sn, ws, rs, endInfo{MustDrain: final == "live"})
 	fs = append(fs, s.findings...)
+	fs = append(fs, healthyClosedFindings(sn)...)
 	openW, openR := 0, 0
 	for _, c := range ws {
 		if c.Ret == 0 {
@@ -249,6 +251,16 @@ func (s *session) finish(desc any, sig string, recoverable bool) vrun.Result {
 		res.AddSet("leftover_goroutine_sites", left...)
 	}
 	return res
+}
+
+// healthyClosedFindings: the library replaces *broken* connections. A connection on which no Read or Write ever failed,
+// closed by the library without the application calling Close, takes whatever the peer sent on it with it and spends the
+// redial budget on a link that was up.
+func healthyClosedFindings(sn snapshot) []finding {
+	if len(sn.HealthyClosed) == 0 {
+		return nil
+	}
+	return []finding{{5, clRedial, "connection-replaced-without-being-broken", map[string]any{"connections": sn.HealthyClosed, "dials": sn.Dials}}}
 }
 
 func (s *session) stats(res *vrun.Result, sn snapshot, ws []wcall, rs []rcall, final string) {
